@@ -205,25 +205,38 @@ def bare_try(fdef, q):
     return t.body
 
 
-def attr_chain_result(expr, start_obj, ok_terms):
-    """`<name>.a.b()` evaluated on a sample object of the static type: does the chain raise AttributeError?
-    Returns the Coq term for the result when the chain is a known one, or None when an attribute is missing."""
-    src = ast.unparse(expr)
-    chain, node = [], expr
-    while True:
-        if isinstance(node, ast.Call) and not node.args and not node.keywords: chain.append(('call',)); node = node.func
-        elif isinstance(node, ast.Attribute): chain.append(('attr', node.attr)); node = node.value
-        elif isinstance(node, ast.Name): break
-        else: raise TranslateError('returned expression not in subset: %s' % src)
-    obj = start_obj
-    for step in reversed(chain):
-        if step[0] == 'attr':
-            if not hasattr(obj, step[1]): return None          # AttributeError -> the bare except returns the raw string
-            obj = getattr(obj, step[1])
-        else:
-            obj = obj()
-    if src in ok_terms: return ok_terms[src]
-    raise TranslateError('returned expression not in subset: %s' % src)
+class Raises(Exception):
+    """Evaluating the expression raises (AttributeError) whatever the input: the bare `except` takes over."""
+
+
+def module_bindings(relpath):
+    """Names bound by the top-level import statements of REPO/relpath -> the real objects (stdlib modules only)."""
+    import importlib, os
+    src = open(os.path.join(vlib.REPO, relpath)).read()
+    out = {}
+    for node in ast.parse(src).body:
+        if isinstance(node, ast.Import):
+            for a in node.names:
+                top = a.name.split('.')[0]
+                if top in ('datetime', 'time'): out[a.asname or top] = importlib.import_module(top)
+        elif isinstance(node, ast.ImportFrom) and node.module in ('datetime', 'time'):
+            mod = importlib.import_module(node.module)
+            for a in node.names: out[a.asname or a.name] = getattr(mod, a.name)
+    return out
+
+
+def eval_chain(expr, names):
+    """Evaluate `name.a.b` / `name.a.b()` (no arguments) on real objects; Raises when an attribute is missing."""
+    if isinstance(expr, ast.Name):
+        if expr.id not in names: raise TranslateError('name %r is not understood in %s' % (expr.id, ast.unparse(expr)))
+        return names[expr.id]
+    if isinstance(expr, ast.Attribute):
+        obj = eval_chain(expr.value, names)
+        if not hasattr(obj, expr.attr): raise Raises('%s has no attribute %r' % (type(obj).__name__ if not isinstance(obj, type) else obj.__name__, expr.attr))
+        return getattr(obj, expr.attr)
+    if isinstance(expr, ast.Call) and not expr.args and not expr.keywords:
+        return eval_chain(expr.func, names)()
+    raise TranslateError('expression not in subset: %s' % ast.unparse(expr))
 
 
 def gen_sqlite_time():
@@ -232,13 +245,33 @@ def gen_sqlite_time():
     expect(len(tb) == 2 and isinstance(tb[0], ast.If) and isinstance(tb[1], ast.Return), 'SQLiteTimeConverter.sql2py: try body changed')
     iff = tb[0]
     expect(ast.unparse(iff.test) == 'len(val) <= 8', 'length test changed: %s' % ast.unparse(iff.test))
-    expect([ast.unparse(s) for s in iff.body] == ["dt = datetime.strptime(val, '%H:%M:%S')"], 'short format changed')
-    expect([ast.unparse(s) for s in iff.orelse] == ["dt = datetime.strptime(val, '%H:%M:%S.%f')"], 'long format changed')
-    r = attr_chain_result(tb[1].value, datetime.datetime(2000, 1, 2, 3, 4, 5, 6), {'dt.time()': '(RVal dt)'})
-    note = 'the returned expression `%s` %s' % (ast.unparse(tb[1].value), 'raises AttributeError: the bare except returns the raw string' if r is None else 'yields the time')
-    out = ('(* %s:%d SQLiteTimeConverter.sql2py (template); %s *)\nDefinition sqlite_time_sql2py (val : str) : dbres time_v :=\n'
-           '  match (if zlen_s val <=? 8 then strptime_hms val else strptime_hms_f val) with\n  | Some dt => %s\n  | None => RStr val\n  end.\n'
-           % (SQ, lineno, note, '(RStr val)' if r is None else r))
+    names = module_bindings(SQ)
+    notes, parsers = [], []
+    for stmts, fmt in ((iff.body, '%H:%M:%S'), (iff.orelse, '%H:%M:%S.%f')):
+        expect(len(stmts) == 1 and isinstance(stmts[0], ast.Assign) and ast.unparse(stmts[0].targets[0]) == 'dt' and isinstance(stmts[0].value, ast.Call)
+               and isinstance(stmts[0].value.func, ast.Attribute) and stmts[0].value.func.attr == 'strptime'
+               and [ast.unparse(a) for a in stmts[0].value.args] == ['val', repr(fmt)] and not stmts[0].value.keywords, 'strptime call changed: %s' % ast.unparse(stmts[0]))
+        try:
+            fn = eval_chain(stmts[0].value.func, names)
+            expect(fn == datetime.datetime.strptime, '%s is not datetime.datetime.strptime' % ast.unparse(stmts[0].value.func))
+            parsers.append(True)
+        except Raises as e:
+            parsers.append(False); notes.append('`%s` raises AttributeError (%s)' % (ast.unparse(stmts[0].value.func), e))
+    ret_ok = None
+    try:
+        v = eval_chain(tb[1].value, {'dt': datetime.datetime(2000, 1, 2, 3, 4, 5, 6)})
+        expect(v == datetime.time(3, 4, 5, 6), 'the returned expression %s is not the time of dt' % ast.unparse(tb[1].value))
+        ret_ok = True
+    except Raises as e:
+        ret_ok = False; notes.append('the returned expression `%s` raises AttributeError (%s)' % (ast.unparse(tb[1].value), e))
+    def arm(ok, parser):
+        if not ok: return '(None : option time_v)'    # the strptime call itself raises
+        return parser
+    body = ('  match (if zlen_s val <=? 8 then %s else %s) with\n  | Some dt => %s\n  | None => RStr val\n  end'
+            % (arm(parsers[0], 'strptime_hms val'), arm(parsers[1], 'strptime_hms_f val'), '(RVal dt)' if ret_ok else '(RStr val)'))
+    note = '; '.join(notes) if notes else 'both strptime calls and the returned expression are well-formed'
+    out = ('(* %s:%d SQLiteTimeConverter.sql2py (template; names resolved against the module imports); %s: an exception inside the try makes the bare except return the raw string *)\n'
+           'Definition sqlite_time_sql2py (val : str) : dbres time_v :=\n%s.\n' % (SQ, lineno, note, body))
     fdef, src, lineno = load(SQ, 'SQLiteTimeConverter.py2sql')
     expect([ast.unparse(s) for s in body_of(fdef)] == ['return val.isoformat()'], 'SQLiteTimeConverter.py2sql changed')
     out += '(* %s:%d SQLiteTimeConverter.py2sql *)\nDefinition sqlite_time_py2sql (val : time_v) : str := iso_time val.\n' % (SQ, lineno)
